@@ -5,6 +5,7 @@ package c09
 func (g *gen) block(ctorBody bool) {
 	g.depth++
 	defer func() { g.depth-- }()
+	defer g.release(g.mark()) // the local variables of the block
 	g.w("{")
 	if ctorBody && g.pickW(3, 2) == 1 {
 		g.explicitConstructorCall()
@@ -37,14 +38,14 @@ func (g *gen) explicitConstructorCall() {
 	case 4:
 		g.use("expression.qualifiedSuperCall")
 		g.use("methodCall.super")
-		g.w(g.sname())
+		g.w(g.vname(false, 45))
 		g.glue(".")
 		g.glue("super")
 		g.arguments()
 	case 5:
 		g.use("expression.qualifiedGenericSuperCall")
 		g.use("explicitGenericInvocationSuffix.super")
-		g.w(g.sname())
+		g.w(g.vname(false, 45))
 		g.glue(".")
 		g.nonWildcardTypeArguments()
 		g.w("super")
@@ -133,23 +134,33 @@ func (g *gen) localVariableDeclaration() {
 	g.variableModifiers()
 	if g.pickW(5, 1) == 1 {
 		g.use("localVariableDeclaration.var")
-		g.w("var", g.lname(), "=")
+		name := g.lname()
+		g.w("var", name, "=")
 		g.expr()
+		g.declareAs(name, "local", "var", false)
 		return
 	}
 	g.use("localVariableDeclaration.typed")
 	g.typeType(true, true)
-	g.variableDeclarators()
+	g.variableDeclarators("local")
 }
 
-func (g *gen) variableDeclarators() {
+// variableDeclarators: the declarators of a field or local variable declaration whose type has just been
+// emitted; every name becomes a declared variable of that kind (visible from its own initialiser on).
+func (g *gen) variableDeclarators(kind string) {
+	shape, ann := g.lastShape, g.lastAnn
 	k := 1 + g.pickW(6, 1, 1)
 	for i := 0; i < k; i++ {
 		if i > 0 {
 			g.w(",")
 		}
-		g.w(g.lname())
-		g.dims(8, "variableDeclaratorId.dims")
+		name := g.lname()
+		g.w(name)
+		if g.dimsN(8, "variableDeclaratorId.dims") > 0 {
+			g.declareAs(name, kind, "array", ann)
+		} else {
+			g.declareAs(name, kind, shape, ann)
+		}
 		if g.pickW(1, 2) == 1 {
 			g.use("variableDeclarator.initializer")
 			g.w("=")
@@ -167,7 +178,7 @@ func (g *gen) statementExpression() {
 	case 0:
 		g.use("primary.identifier")
 		g.use("expression.dotMethodCall")
-		g.w(g.sname())
+		g.w(g.vname(true, 70))
 		g.glue(".")
 		g.glue(g.lname())
 		g.arguments()
@@ -321,7 +332,7 @@ func (g *gen) statement() {
 	case 17:
 		g.use("statement.expression")
 		g.use("expression.dotExplicitGenericInvocation")
-		g.w(g.sname())
+		g.w(g.vname(true, 70))
 		g.glue(".")
 		g.nonWildcardTypeArguments()
 		g.w(g.lname())
@@ -353,6 +364,7 @@ func (g *gen) statementOrBlock() {
 }
 
 func (g *gen) forStatement() {
+	defer g.release(g.mark()) // the variables of the header
 	g.w("for", "(")
 	switch g.pickW(4, 3, 1, 1) {
 	case 0:
@@ -365,13 +377,19 @@ func (g *gen) forStatement() {
 		if g.pickW(3, 1) == 1 {
 			g.use("enhancedForControl.var")
 			g.w("var")
+			g.lastShape, g.lastAnn = "var", false
 		} else {
 			g.typeType(true, true)
 		}
-		g.w(g.lname())
-		g.dims(8, "variableDeclaratorId.dims")
+		shape, ann := g.lastShape, g.lastAnn
+		name := g.lname()
+		g.w(name)
+		if g.dimsN(8, "variableDeclaratorId.dims") > 0 {
+			shape = "array"
+		}
 		g.w(":")
 		g.expr()
+		g.declareAs(name, "forVariable", shape, ann)
 	case 2:
 		g.use("forControl.classic")
 		g.use("forControl.allEmpty")
@@ -410,8 +428,10 @@ func (g *gen) forStatement() {
 
 func (g *gen) catchClause() {
 	g.use("catchClause")
+	defer g.release(g.mark()) // the exception parameter
 	g.w("catch", "(")
 	g.variableModifiers()
+	shape := "simple"
 	k := 1 + g.pickW(4, 2, 1)
 	for i := 0; i < k; i++ {
 		if i > 0 {
@@ -421,18 +441,22 @@ func (g *gen) catchClause() {
 			g.qualifiedName(2)
 			g.glue(".")
 			g.glue(g.tname())
+			shape = "qualified"
 		} else {
-			g.w(g.tname())
+			g.w(g.typeUseName(g.tname()))
 		}
 	}
 	if k > 1 {
 		g.use("catchType.multi")
 	}
-	g.w(g.lname(), ")")
+	name := g.lname()
+	g.w(name, ")")
+	g.declareAs(name, "catchParameter", shape, false)
 	g.block(false)
 }
 
 func (g *gen) tryStatement() {
+	defer g.release(g.mark()) // the resources
 	g.w("try")
 	switch g.pickW(4, 2, 2, 3) {
 	case 0:
@@ -468,16 +492,21 @@ func (g *gen) tryStatement() {
 				g.use("resource.typed")
 				g.variableModifiers()
 				g.refType(false)
-				g.w(g.lname(), "=")
+				shape := g.lastShape
+				name := g.lname()
+				g.w(name, "=")
 				g.expr()
+				g.declareAs(name, "resource", shape, false)
 			case 1:
 				g.use("resource.var")
 				g.variableModifiers()
-				g.w("var", g.lname(), "=")
+				name := g.lname()
+				g.w("var", name, "=")
 				g.expr()
+				g.declareAs(name, "resource", "var", false)
 			case 2:
 				g.use("resource.identifier")
-				g.w(g.sname())
+				g.w(g.vname(false, 45))
 			}
 		}
 		if g.chance(25) {
@@ -537,8 +566,7 @@ func (g *gen) switchLabel() {
 	case 3:
 		g.use("switchLabel.typePattern")
 		g.w("case")
-		g.simpleRefType()
-		g.w(g.sname())
+		g.patternVariable()
 	case 4:
 		g.use("switchLabel.constantExpression")
 		g.w("case", g.tname())
